@@ -167,6 +167,7 @@ def _copy_expr(n):
 
 
 _locals_cache = {}
+_aug_cache = {}
 _calls_cache = {}
 _loads_cache = {}
 
@@ -386,6 +387,17 @@ class Walker:
             if isinstance(st.value, ast.Constant):
                 return states
             return self.expr(st.value, states, frame)
+        if isinstance(st, ast.Assign) and len(st.targets) == 1 and not isinstance(st.targets[0], ast.Name) and isinstance(st.value, ast.BinOp) \
+                and isinstance(st.value.op, (ast.Add, ast.Sub)) and ast.unparse(st.value.left) == ast.unparse(st.targets[0]):
+            # `x.f = x.f + k` is the same effect as `x.f += k`
+            aug = ast.AugAssign(target=st.targets[0], op=st.value.op, value=st.value.right)
+            ast.copy_location(aug, st)
+            aug._module = getattr(st, "_module", None)
+            aug._parent = getattr(st, "_parent", None)
+            key = id(st)
+            if key not in _aug_cache:
+                _aug_cache[key] = aug
+            return self.stmt(_aug_cache[key], states, frame)
         if isinstance(st, ast.Assign):
             states = self.expr(st.value, states, frame)
             if self.reads is not None:
